@@ -62,6 +62,93 @@ def _cleanup(stmts: List[ast.stmt], expr_of: str, table: str) -> str:
     return out
 
 
+NOOPS = ("self.software[software_name].uninstall()", "software.uninstall()", "software.parent = None", "del software", "return")
+
+
+def _is_log(st: ast.stmt) -> bool:
+    return isinstance(st, ast.Expr) and isinstance(st.value, ast.Call) and \
+        any(ast.unparse(st.value.func).startswith(p) for p in ("self.sys_log.", "self.node.sys_log.", "_LOGGER."))
+
+
+def _kind_test(t: ast.AST) -> str:
+    s = ast.unparse(t)
+    if s == "isinstance(software, Application)":
+        return "(n.findApp u).isSome"
+    if s == "isinstance(software, Service)":
+        return "(n.findSvc u).isSome"
+    raise Unsupported("test in uninstall: " + s)
+
+
+def _un_block(stmts: List[ast.stmt], ind: int) -> str:
+    """statements of `uninstall` after the object was popped -> Lean, threading `st : Node` through `Option` (`none` = raises)"""
+    pad = "  " * ind
+    if not stmts:
+        return pad + "some st"
+    st, rest = stmts[0], stmts[1:]
+    s = ast.unparse(st)
+    if s in NOOPS or _is_log(st) or (isinstance(st, ast.Expr) and isinstance(st.value, ast.Constant)):
+        return _un_block(rest, ind)
+    if s == "self.node.applications.pop(software.uuid)":
+        return f"{pad}let st : Node := {{ st with applications := st.applications.filter (· != u) }}\n" + _un_block(rest, ind)
+    if s == "self.node.services.pop(software.uuid)":
+        return f"{pad}let st : Node := {{ st with services := st.services.filter (· != u) }}\n" + _un_block(rest, ind)
+    if s in ("self.node._application_request_manager.remove_request(software.name)", "self.node._application_request_manager.remove_request(software_name)"):
+        return (f"{pad}(if dhas name st.appRoutes then some {{ st with appRoutes := ddel name st.appRoutes }} else none).bind fun st =>\n"
+                + _un_block(rest, ind))
+    if s in ("self.node._service_request_manager.remove_request(software.name)", "self.node._service_request_manager.remove_request(software_name)"):
+        return (f"{pad}(if dhas name st.svcRoutes then some {{ st with svcRoutes := ddel name st.svcRoutes }} else none).bind fun st =>\n"
+                + _un_block(rest, ind))
+    if isinstance(st, ast.If):
+        branches, cur = [], st
+        while True:
+            branches.append((_kind_test(cur.test), cur.body))
+            if len(cur.orelse) == 1 and isinstance(cur.orelse[0], ast.If):
+                cur = cur.orelse[0]
+                continue
+            tail = cur.orelse
+            break
+        out = pad + "("
+        for k, (t, body) in enumerate(branches):
+            out += ("if " if k == 0 else f"{pad} else if ") + t + " then\n" + _un_block(body, ind + 2) + "\n"
+        out += f"{pad} else\n" + _un_block(tail, ind + 2) + ").bind fun st =>\n"
+        return out + _un_block(rest, ind)
+    for expr_of, table, field in (("self.port_protocol_mapping", "pm", "portMap"), ("self._software_class_to_name_map", "cm", "classMap")):
+        if any(ast.unparse(x).startswith(expr_of) for x in ast.walk(st) if isinstance(x, ast.Attribute)):
+            e = _cleanup([st], expr_of, table)
+            e = e.replace("nameOf e.2", "n.nameOf e.2")
+            if "ddel key" in e:
+                e = f"(match n.metaOf u with | some m => {e.replace('ddel key', 'ddel (m.cls.port, m.cls.proto)')} | none => {table})"
+            if "ddel cid" in e or "e.1 == cid" in e:
+                e = f"(match n.metaOf u with | some m => {e.replace('cid', 'm.cls.cid')} | none => {table})"
+            return f"{pad}let st : Node := {{ st with {field} := (fun {table} => {e}) st.{field} }}\n" + _un_block(rest, ind)
+    raise Unsupported("statement of uninstall: " + s[:100])
+
+
+def uninstall_method() -> str:
+    un = find_method(class_def(parse(SM), "SoftwareManager"), "uninstall")
+    body = [s for s in un.body if not (isinstance(s, ast.Expr) and isinstance(s.value, ast.Constant))]
+    # 1. the guard: `if software_name not in self.software: <log>; return`
+    g = body[0]
+    if not (isinstance(g, ast.If) and ast.unparse(g.test) == "software_name not in self.software" and not g.orelse
+            and all(_is_log(x) or ast.unparse(x) == "return" for x in g.body) and ast.unparse(g.body[-1]) == "return"):
+        raise Unsupported("guard of uninstall: " + ast.unparse(g)[:100])
+    rest = body[1:]
+    # 2. statements before the pop may only be no-ops; then `software = self.software.pop(software_name)`
+    k = next((i for i, s in enumerate(rest) if ast.unparse(s) == "software = self.software.pop(software_name)"), None)
+    if k is None or any(ast.unparse(s) not in NOOPS and not _is_log(s) for s in rest[:k]):
+        raise Unsupported("uninstall does not start with (no-ops and) `software = self.software.pop(software_name)`")
+    return f"""/-- TRANSLATED statement by statement: `SoftwareManager.uninstall(software_name)`.  `u` = the popped object; `isinstance` is read off
+the heap the object lives in; `software.name` is `software_name` (the key it was stored under); `none` = raises -/
+def uninstallMethod (n : Node) (name : String) : Option Node :=
+  if !(dhas name n.software) then some n else
+  match dget name n.software with
+  | none => some n
+  | some u =>
+    let st : Node := {{ n with software := ddel name n.software }}
+{_un_block(rest[k + 1:], 2)}
+"""
+
+
 def emit() -> str:
     cls = class_def(parse(SM), "SoftwareManager")
     un = find_method(cls, "uninstall")
@@ -102,6 +189,8 @@ def installPortMap (u : Nat) (key : Nat × Nat) (pm : List ((Nat × Nat) × Nat)
   {ipm}
 def installClassMap (name : String) (cid : String) (cm : List (String × String)) : List (String × String) :=
   {icm}
+
+{uninstall_method()}
 
 end Primaite.Gen.SoftwareRegs
 """
